@@ -129,9 +129,36 @@ def gen_numbacap(rng, thorough):
                 step=list(rng.choice([(1, 2), (3, 4), (7, 8)])), stop8=sigma)
 
 
+def gen_deep(rng):
+    """an oversize chain that only falls apart after MANY range reductions: a step close to 1 (31/32),
+    neighbours at 3/16 of the range, adaptive_stop lower still — about 53 reductions are needed before
+    every sub-group fits ("repeatedly ... until every sub-group fits"), far more than any other case"""
+    dim = rng.choice([1, 2, 2])
+    R = 64                                  # search range in lattice units (sr is given in quarters)
+    gap = rng.choice([11, 12, 13])          # neighbour distance: the chain dissolves below ~gap
+    n = rng.randint(4, 9)
+    maxa = rng.randint(2, n - 1)
+    base = [rng.randint(-20, 20) for _ in range(dim)]
+    pts = [[base[0] + i * gap] + [base[a] for a in range(1, dim)] for i in range(n)]
+    nfr = rng.choice([2, 2, 3])
+    frames = []
+    for k in range(nfr):
+        cur = [[p[0] + (k % 2)] + [p[a] + (k if a == 1 else 0) for a in range(1, dim)] for p in pts]
+        rng.shuffle(cur)
+        frames.append(cur)
+    # stop below the range at which the chain dissolves (gap ~ 0.19 R), sometimes far below
+    stop8 = rng.choice([8 * 6, 8 * 8, 77, 8 * 3])
+    return dict(stream="adaptive", dim=dim, frames=frames, t0=rng.choice([0, 3]), sr=[4 * R] * dim, iso=True,
+                memory=rng.choice([0, 0, 1]), strategy=rng.choice(["recursive", "nonrecursive", "hybrid"]),
+                entry=rng.choice(["link_iter", "link_df_iter"]), maxa=maxa, step=[31, 32], stop8=stop8,
+                deep=True)
+
+
 def gen_cases(ctx):
     for inp in ctx.corpus():
         yield inp
+    for i in range(ctx.n(10, 120)):
+        yield gen_deep(ctx.rng("deep", i))
     n = ctx.n(400, 5000)
     for i in range(n):
         rng = ctx.rng("dense", i)
